@@ -363,3 +363,119 @@ Proof.
   replace (2 ^ S (2 * g)) with (2 * 4 ^ g). field.
   rewrite <- tech_pow_Rmult, pow_mult. f_equal. f_equal. simpl. ring.
 Qed.
+
+(* ------------------------------------------------------------------ UDD *)
+Lemma rsum_from_shift a n f : rsum_from (S a) n f = rsum_from a n (fun k => f (S k)).
+Proof. revert a. induction n; intros a; simpl. reflexivity. rewrite IHn. reflexivity. Qed.
+Lemma rsum_from_last a n f : rsum_from a (S n) f = rsum_from a n f + f (a + n)%nat.
+Proof.
+  revert a. induction n; intros a. simpl. rewrite Nat.add_0_r. ring.
+  change (rsum_from a (S (S n)) f) with (f a + rsum_from (S a) (S n) f).
+  rewrite IHn. simpl. replace (S (a + n)) with (a + S n)%nat by lia. ring.
+Qed.
+Lemma rsum_from_S a n f : rsum_from a (S n) f = f a + rsum_from (S a) n f.
+Proof. reflexivity. Qed.
+Lemma rsum_from_ext a n f g : (forall k, f k = g k) -> rsum_from a n f = rsum_from a n g.
+Proof. intros H. revert a. induction n; intros a; simpl. reflexivity. rewrite IHn, H. reflexivity. Qed.
+
+(* sum over k = -m .. m-1 paired as (-(k+1), k) *)
+Lemma sum_range_symm m f :
+  sum_range (- Z.of_nat m) (Z.of_nat m) f = sumn' m (fun k => f (- Z.of_nat (S k))%Z + f (Z.of_nat k)).
+Proof.
+  induction m. reflexivity.
+  rewrite sum_range_from in *.
+  replace (Z.to_nat (Z.of_nat (S m) - - Z.of_nat (S m))) with (S (S (2 * m))) by lia.
+  replace (Z.to_nat (Z.of_nat m - - Z.of_nat m)) with (2 * m)%nat in IHm by lia.
+  change (sumn' (S m) ?g) with (sumn' m g + g m). rewrite <- IHm.
+  rewrite rsum_from_S, rsum_from_shift, rsum_from_last.
+  rewrite Z.add_0_r.
+  rewrite (rsum_from_ext 0 (2 * m) _ (fun i => f (- Z.of_nat m + Z.of_nat i)%Z)).
+  2:{ intros k. f_equal. lia. }
+  replace (- Z.of_nat (S m) + Z.of_nat (S (0 + 2 * m)))%Z with (Z.of_nat m) by lia.
+  simpl. ring.
+Qed.
+
+Lemma pow_m1_sq m : (-1) ^ m * (-1) ^ m = 1.
+Proof. rewrite <- Rpow_mult_distr. replace (-1 * -1) with 1 by ring. apply pow1. Qed.
+Lemma powerRZ_m1_neg m : powerRZ (-1) (- Z.of_nat m) = (-1) ^ m.
+Proof.
+  destruct m. reflexivity.
+  simpl Z.of_nat. simpl Z.opp. unfold powerRZ. rewrite SuccNat2Pos.id_succ.
+  apply (Rmult_eq_reg_l ((-1) ^ S m)). rewrite Rinv_r, pow_m1_sq. reflexivity.
+  apply pow_nonzero; lra. apply pow_nonzero; lra.
+Qed.
+
+(* telescoping of the pairs: sum_{k<=n} (D(k+1) + D(k)) = D(0) + D(n+1) + 2 sum_{1<=k<=n} D(k) *)
+Lemma csumn_pairs n (D : nat -> Cx) :
+  csumn' (S n) (fun k => cadd' (D (S k)) (D k)) =
+  cadd' (cadd' (D O) (D (S n))) (cmul' (cadd' 1c 1c) (csumn' n (fun k => D (S k)))).
+Proof.
+  induction n. simpl. ring.
+  rewrite csumn_S, IHn. rewrite (csumn_S n). ring.
+Qed.
+
+Section UDD.
+Variables (n : nat) (z : R).
+Definition udd_c (k : nat) : R := cos (PI * INR k / (INR n + 1)).
+(* (-1)^k e^{i z/2 cos(pi k/(n+1))}: the terms of the shipped expression *)
+Definition udd_E (k : nat) : Cx := cscal RO ((-1) ^ k) (cexp' (z / 2 * udd_c k)).
+Definition udd_U : Cx := csumn' (S n) (fun k => cadd' (udd_E (S k)) (udd_E k)).
+(* (-1)^k e^{i z delta_k} *)
+Definition udd_D (k : nat) : Cx := cscal RO ((-1) ^ k) (ez z ((sin (PI * INR k / (2 * INR n + 2))) ^ 2)).
+
+Lemma udd_D_E k : udd_D k = cmul' (cexp' (z / 2)) (cconj' (udd_E k)).
+Proof.
+  unfold udd_D, udd_E, ez, udd_c.
+  replace (z * sin (PI * INR k / (2 * INR n + 2)) ^ 2) with (z / 2 + - (z / 2 * cos (PI * INR k / (INR n + 1)))).
+  rewrite cexp_add, cexp_neg. apply c_eq; csimp; ring.
+  rewrite (cos_half (PI * INR k / (INR n + 1))).
+  replace (PI * INR k / (INR n + 1) / 2) with (PI * INR k / (2 * INR n + 2)).
+  field. field. split. apply INR_p1_neq. generalize (pos_INR n); lra.
+Qed.
+
+Lemma udd_y : dd_y (udd_times n) z = cneg' (cmul' (cexp' (z / 2)) (cconj' udd_U)).
+Proof.
+  unfold udd_U. rewrite csumn_conj, <- csumn_mul_l.
+  rewrite (csumn_ext (S n) _ (fun k => cadd' (udd_D (S k)) (udd_D k))).
+  2:{ intros k _. rewrite cconj_add, cmul_add_distr_l, <- !udd_D_E. reflexivity. }
+  rewrite csumn_pairs.
+  rewrite dd_y_pulse. unfold udd_times. rewrite fam_length. unfold fam. rewrite alt_fam.
+  rewrite (csumn_ext n _ (fun k => cneg' (udd_D (S k)))).
+  2:{ intros k _. unfold udd_D. simpl plus. simpl pow. apply c_eq; csimp; ring. }
+  assert (H0 : udd_D 0 = 1c).
+  { unfold udd_D, ez. simpl INR. replace (PI * 0 / (2 * INR n + 2)) with 0.
+    rewrite sin_0. simpl pow. rewrite !Rmult_0_l, Rmult_0_r, cexp_0. cring.
+    field. generalize (pos_INR n); lra. }
+  assert (H1 : udd_D (S n) = cneg' (cscal RO ((-1) ^ n) (ez z 1))).
+  { unfold udd_D. replace (PI * INR (S n) / (2 * INR n + 2)) with (PI / 2).
+    rewrite sin_PI2. simpl pow. rewrite !Rmult_1_r. apply c_eq; csimp; ring.
+    rewrite S_INR. field. generalize (pos_INR n); lra. }
+  rewrite H0, H1.
+  rewrite (csumn_ext n (fun k => cneg' (udd_D (S k))) (fun k => cmul' (cneg' 1c) (udd_D (S k)))) by (intros; ring).
+  rewrite csumn_mul_l, cscal_mul.
+  replace (cofr RO 2) with (cadd' 1c 1c) by (apply c_eq; csimp; ring). ring.
+Qed.
+
+Lemma udd_U_shipped :
+  UDD z (Z.of_nat n) = cabs2 RO udd_U / 2.
+Proof.
+  unfold UDD. replace (- Z.of_nat n - 1)%Z with (- Z.of_nat (S n))%Z by lia.
+  replace (Z.of_nat n + 1)%Z with (Z.of_nat (S n)) by lia.
+  rewrite !sum_range_symm. unfold cabs2. simpl omul. simpl oadd.
+  unfold udd_U. rewrite csumn_re, csumn_im.
+  assert (Hc : forall k, PI * IZR (- Z.of_nat k) / (IZR (Z.of_nat n) + 1) = - (PI * INR k / (INR n + 1))).
+  { intros k. rewrite opp_IZR, !IZR_of_nat. field. apply INR_p1_neq. }
+  assert (Hc' : forall k, PI * IZR (Z.of_nat k) / (IZR (Z.of_nat n) + 1) = PI * INR k / (INR n + 1)).
+  { intros k. rewrite !IZR_of_nat. reflexivity. }
+  f_equal. simpl pow. rewrite !Rmult_1_r. f_equal.
+  - f_equal; apply sumn_ext; intros k _; rewrite powerRZ_m1_neg, <- pow_powerRZ, Hc, Hc', cos_neg;
+      unfold udd_E, udd_c; csimp; reflexivity.
+  - f_equal; apply sumn_ext; intros k _; rewrite powerRZ_m1_neg, <- pow_powerRZ, Hc, Hc', cos_neg;
+      unfold udd_E, udd_c; csimp; reflexivity.
+Qed.
+End UDD.
+
+Lemma udd_closed n z : dd_F (udd_times n) z = UDD z (Z.of_nat n).
+Proof.
+  rewrite udd_U_shipped. unfold dd_F. rewrite udd_y, cabs2_neg, cabs2_mul, cexp_abs2, cabs2_conj. ring.
+Qed.
